@@ -124,7 +124,7 @@ fn body_c15_get_last_request(following: bool) {
     kani::cover!(!following, "reach-not-following");
 }
 
-//@ob fn="Settable::follow" at=src/lib.rs:273 also=rel_check clause="follow(g) from an arbitrary pre-state (already following something or not): the followed getter becomes exactly g; the last request is unchanged; nothing is set, g is not read"
+//@ob fn="Settable::follow" at=src/lib.rs:273 also_thorough=rel_check clause="follow(g) from an arbitrary pre-state (already following something or not): the followed getter becomes exactly g; the last request is unchanged; nothing is set, g is not read"
 #[kani::proof]
 fn c15_follow() {
     both_ways(body_c15_follow);
@@ -143,7 +143,7 @@ fn body_c15_follow(following: bool) {
     kani::cover!(!following, "reach-not-following");
 }
 
-//@ob fn="Settable::stop_following" at=src/lib.rs:278 also=rel_check clause="stop_following from an arbitrary pre-state: nothing is followed afterwards; the last request is unchanged; nothing is set"
+//@ob fn="Settable::stop_following" at=src/lib.rs:278 also_thorough=rel_check clause="stop_following from an arbitrary pre-state: nothing is followed afterwards; the last request is unchanged; nothing is set"
 #[kani::proof]
 fn c15_stop_following() {
     both_ways(body_c15_stop_following);
@@ -376,7 +376,7 @@ fn c15_gfh_get_clock_error() {
     reach!();
 }
 
-//@ob fn="<GetterFromHistory<G,TG,E> as Updatable>::update" at=src/lib.rs:410 also=rel_check clause="update updates the history first, then the clock, each exactly once; a history error is returned and the clock is then not updated; otherwise a clock error is returned; otherwise Ok; the offset is unchanged and nothing is queried"
+//@ob fn="<GetterFromHistory<G,TG,E> as Updatable>::update" at=src/lib.rs:410 also_thorough=rel_check clause="update updates the history first, then the clock, each exactly once; a history error is returned and the clock is then not updated; otherwise a clock error is returned; otherwise Ok; the offset is unchanged and nothing is queried"
 #[kani::proof]
 fn c15_gfh_update() {
     let seq = Cell::new(0);
@@ -661,7 +661,7 @@ fn body_c15_constant_set(following: bool) {
     kani::cover!(!following, "reach-not-following");
 }
 
-//@ob fn="<ConstantGetter<T,TG,E> as Updatable>::update" at=src/lib.rs:467 also=rel_check clause="update follows: not following => Ok, unchanged; followed getter present d => value and last request become d.value; absent => Ok, unchanged; Err(e) => Err(e), unchanged; the clock is neither read nor updated"
+//@ob fn="<ConstantGetter<T,TG,E> as Updatable>::update" at=src/lib.rs:467 also_thorough=rel_check clause="update follows: not following => Ok, unchanged; followed getter present d => value and last request become d.value; absent => Ok, unchanged; Err(e) => Err(e), unchanged; the clock is neither read nor updated"
 #[kani::proof]
 fn c15_constant_update() {
     both_ways(body_c15_constant_update);
